@@ -399,7 +399,9 @@ func (e *Evaluator) generalReferenceEvaluation(
 			return err
 		}
 
-		p.SetLastEvaluatedT(methodT)
+		// the method entry is shared: what follows may assign through the
+		// last evaluated value (x = obj[0] = 1)
+		p.SetLastEvaluatedT(methodT.DeepCopy())
 
 		return nil
 
@@ -412,7 +414,7 @@ func (e *Evaluator) generalReferenceEvaluation(
 
 		p.Unget()
 
-		p.SetLastEvaluatedT(methodT)
+		p.SetLastEvaluatedT(methodT.DeepCopy())
 
 		return e.evalPriorityExp(p, ctx)
 	}
@@ -729,7 +731,7 @@ func (s *SquareBracket) Evaluation(
 	methodT := base.GetMethodT(ctx.GetFrame(), base.TypeToString(&lastT), "[]", false)
 	if methodT != nil && p.IsParsingExpression() && !t.IsBeforeSpace {
 		p.SkipToTargetToken("]")
-		p.SetLastEvaluatedT(methodT)
+		p.SetLastEvaluatedT(methodT.DeepCopy())
 
 		return nil
 	}
